@@ -173,7 +173,7 @@ def case_signature(prop, c):
     if "ent" in c:
         parts.append("L=%d" % servegen.unlimbs(c["ent"]["len"]))
         parts.append("etag=%s" % c["ent"]["etag"].get("s"))
-    for k in ("scripts", "ops", "sched", "echo", "sig"):
+    for k in ("hdr", "cap", "ae", "level", "prog", "scripts", "sched", "rseed", "rand_cdrop", "echo", "path", "sig"):
         if k in c:
             parts.append("%s=%s" % (k, json.dumps(c[k], separators=(",", ":"))))
     return " | ".join(parts)
@@ -182,7 +182,8 @@ def case_signature(prop, c):
 def run_mc(prop, tier, name, spec, d):
     module, consts, invs, must_cover = spec
     consts = dict(consts)
-    consts["Enforce"] = vlib.tla_set([prop])
+    if module != "NegMC":
+        consts["Enforce"] = vlib.tla_set([prop])
     cfg = "SPECIFICATION Spec\nCONSTANTS\n" + "\n".join("  %s = %s" % kv for kv in consts.items()) + \
           "\nINVARIANTS " + " ".join(invs) + "\nCHECK_DEADLOCK FALSE\n"
     t = time.time()
@@ -192,7 +193,7 @@ def run_mc(prop, tier, name, spec, d):
     st["name"] = name
     st["wall_s"] = round(time.time() - t, 1)
     st["constants"] = {k: v for k, v in consts.items() if k != "Enforce"}
-    st["coverage"] = {k: v for k, v in vlib.parse_coverage(out).items() if ".Do" in k or ".W_" in k or ".R_" in k or ".C_" in k}
+    st["coverage"] = vlib.parse_coverage(out)
     if not st["ok"]:
         with open(os.path.join(d, "mc_%s.out" % name), "w") as f:
             f.write(out)
@@ -208,7 +209,8 @@ def run_witnesses(prop, name, spec, witnesses, d):
     """Each witness invariant must be VIOLATED (the situation it denies is reachable)."""
     module, consts, invs, must_cover = spec
     consts = dict(consts)
-    consts["Enforce"] = vlib.tla_set([prop])
+    if module != "NegMC":
+        consts["Enforce"] = vlib.tla_set([prop])
     res = {}
     for w in witnesses:
         cfg = "SPECIFICATION Spec\nCONSTANTS\n" + "\n".join("  %s = %s" % kv for kv in consts.items()) + \
@@ -346,7 +348,7 @@ def run_check(prop, tier, seed):
                 "distinct abstract view (request classes, entity shape, scripts/schedule); non-trivial = the "
                 "property's antecedent is exercised (tools/plans.py *_nontrivial)",
         "exhaustive": False,
-        "exhaustive_model_runs": [{k: v for k, v in m.items() if k != "coverage"} for m in mc_results],
+        "exhaustive_model_runs": mc_results,
         "model_states_exhaustive": sum(m["distinct"] for m in mc_results),
         "trace_events_validated": sum(r["events"] for r in trace_results),
         "trace_validation_states": sum(r["states"] for r in trace_results),
@@ -384,3 +386,127 @@ def replay(prop, path):
         return 1
     print("replay: property %s holds on this case in the current tree" % prop)
     return 0
+
+
+# ====================================================================== streaming engine
+import streamgen   # noqa: E402
+import subprocess  # noqa: E402
+
+STREAM_PROPS = ["C08", "C09", "C10", "C11", "C17"]
+
+
+def stream_mc_spec(prop, tier, cdrop):
+    T = tier == "thorough"
+    c = {"Caps": "{1, 2, 3}" if T else "{1, 2}", "WSizes": "{0, 1, 2, 4}" if T else "{0, 1, 3}",
+         "MaxOps": 4 if T else 3, "MaxSpur": 2 if T else 1, "MaxProbes": 1, "MaxExtra": 2 if T else 1,
+         "AllowCDrop": "TRUE" if cdrop else "FALSE", "AllowAbort": "FALSE" if prop == "C08" and not T else "TRUE",
+         "AllowWait": "TRUE"}
+    return ("StreamMC", c, ["PropInv", "NoLostWakeup", "Consistent"], ["StreamMC.P_Step", "StreamMC.C_Poll",
+                                                                      "StreamMC.C_Probe"] + (["StreamMC.C_Drop"] if cdrop else []))
+
+
+STREAM_WITNESS = {"nodrop": ["W_Parked", "W_CleanEnd", "W_Spurious"], "cdrop": ["W_WriteFails", "W_ErrEnd"]}
+
+
+def gen_scheds(prop, tier, seed, d):
+    """Spec -> implementation: TLC emits complete behaviours of the bounded streaming model
+    (every behaviour of tiny programs; -simulate walks of larger ones)."""
+    os.makedirs(d, exist_ok=True)
+    vlib.copy_specs(d)
+    T = tier == "thorough"
+    abort = "FALSE" if prop == "C08" else "TRUE"
+    cdrop = "TRUE" if prop in ("C11", "C20") else "FALSE"
+    out = []
+
+    def run(name, consts, extra_args, timeout):
+        cfg = "SPECIFICATION GSpec\nCONSTANTS\n" + "\n".join("  %s = %s" % kv for kv in consts.items()) + \
+              "\nINVARIANTS Emit\nCHECK_DEADLOCK FALSE\n"
+        sd = os.path.join(d, name)
+        os.makedirs(sd, exist_ok=True)
+        vlib.copy_specs(sd)
+        rc, o = vlib.run_tlc(sd, "StreamGen", cfg, workers=4, timeout=timeout, xmx="6g", extra_args=extra_args)
+        n = 0
+        for line in o.splitlines():
+            if line.startswith('<<"SCHED", "'):
+                js = line[len('<<"SCHED", "'):-3].replace('\\"', '"')
+                try:
+                    out.append(json.loads(js))
+                    n += 1
+                except ValueError:
+                    pass
+        if n == 0:
+            raise vlib.ToolError("StreamGen/%s emitted no behaviours:\n%s" % (name, o[-1500:]))
+        return n
+
+    base = {"Enforce": vlib.tla_set([prop]), "Caps": "{1, 2}", "WSizes": "{1, 3}", "MaxOps": 2 if T else 1,
+            "MaxSpur": 1, "MaxProbes": 0, "MaxExtra": 1, "AllowCDrop": cdrop, "AllowAbort": abort, "AllowWait": "FALSE"}
+    n1 = run("exh", base, [], 600)
+    sim = dict(base)
+    sim.update({"Caps": "{1, 2, 3}", "WSizes": "{0, 1, 2, 4, 9}", "MaxOps": 5, "MaxSpur": 2, "MaxProbes": 2, "MaxExtra": 2,
+                "AllowWait": "TRUE"})
+    n2 = run("sim", sim, ["-simulate", "num=%d" % (6000 if T else 800), "-depth", "60", "-seed", str(seed)], 900)
+    rng = __import__("random").Random(seed)
+    if not T and len(out) > 6000:
+        head = out[:n1]
+        rng.shuffle(head)
+        out = head[:5000] + out[n1:]
+    seen = set()
+    uniq = []
+    for s in out:
+        key = json.dumps(s, sort_keys=True)
+        if key not in seen:
+            seen.add(key)
+            uniq.append(s)
+    return uniq, {"exhaustive_behaviours": n1, "simulated_behaviours": n2, "replayed": len(uniq)}
+
+
+def stream_plan(prop):
+    def cases(tier, seed):
+        sched_cases = []
+        meta = {}
+        if prop in ("C08", "C10", "C11", "C12", "C20"):
+            sc, meta = gen_scheds(prop, tier, seed, os.path.join(vlib.WORK, "check_%s" % prop, "gen"))
+            sched_cases = [{"cap": s["cap"], "prog": s["prog"], "sched": s["sched"], "extra": 1} for s in sc]
+        cs = streamgen.stream_cases(prop, tier, seed, sched_cases)
+        stream_plan.meta[prop] = meta
+        return cs
+    return {"engine": "stream", "trace_module": "StreamTrace", "cases": cases,
+            "constants": {"Strict": "TRUE"}, "nontrivial": lambda c: streamgen.stream_nontrivial(prop, c)}
+
+
+stream_plan.meta = {}
+
+
+def stream_mc(prop):
+    def f(tier):
+        if prop in ("C09", "C17"):
+            return []
+        out = [("nodrop", stream_mc_spec(prop, tier, False))]
+        if prop in ("C11", "C12", "C20"):
+            out.append(("cdrop", stream_mc_spec(prop, tier, True)))
+        return out
+    return f
+
+
+for _p in ["C08", "C09", "C10", "C11"]:
+    PLANS[_p] = {"engines": [stream_plan(_p)], "mc": stream_mc(_p), "witness": STREAM_WITNESS}
+# C17 adds the negotiation model; C12 / C20 / C15 combine the serve and the stream engine
+PLANS["C17"] = {"engines": [stream_plan("C17")], "mc": lambda tier: [("neg", neg_mc(tier))], "witness": {"neg": ["W_True", "W_Both"]}}
+for _p in ["C12", "C20"]:
+    PLANS[_p]["engines"].append(stream_plan(_p))
+    PLANS[_p]["mc"] = (lambda prop, old: (lambda tier: old(tier) + stream_mc(prop)(tier)))(_p, PLANS[_p]["mc"])
+    PLANS[_p]["witness"] = dict(SERVE_WITNESS, **STREAM_WITNESS)
+PLANS["C15"]["engines"].append(stream_plan("C15"))
+
+
+def neg_mc(tier):
+    c = {"Codings": '{"gzip", "identity", "*", "br"}', "Quals": "{0, 1, 500, 1000}" if tier == "quick" else "{0, 1, 500, 999, 1000}",
+         "MaxLen": 3 if tier == "quick" else 4}
+    return ("NegMC", c, ["ImplInside", "Deterministic", "NeverUnlisted", "NeverZero", "Monotone", "Antitone"], [])
+
+
+PLANS["C16"] = {"engines": [{"engine": "neg", "trace_module": "NegTrace",
+                             "cases": lambda tier, seed: streamgen.neg_cases(tier, seed),
+                             "constants": {"Strict": "TRUE"},
+                             "nontrivial": lambda c: c["abs"]["k"] == "list" and len(c["abs"]["l"]) > 0}],
+                "mc": lambda tier: [("neg", neg_mc(tier))], "witness": {"neg": ["W_True", "W_Both"]}}
